@@ -2,11 +2,14 @@ use crate::engine::Prop;
 
 pub mod c01;
 pub mod c02;
+pub mod c05;
+pub mod ppcommon;
 
 pub fn by_id(id: &str) -> Option<Box<dyn Prop>> {
     match id {
         "C01" => Some(Box::new(c01::C01)),
         "C02" => Some(Box::new(c02::C02)),
+        "C05" => Some(Box::new(c05::C05)),
         _ => None,
     }
 }
